@@ -596,8 +596,8 @@ func Gen(seed int64, index int, o GenOpts) *Case {
 				// unit that is not a random-access one, frequent
 				pChange, pNonRA = 0.7, 0.6
 			}
-			// (regular profile: a quarter of the cases, changes at random-access units only)
-			regularChange := o.Profile == "regular" && (uint64(seed)*5+uint64(index)*3)%4 == 3
+			// (regular profile: half of the cases, changes at random-access units only)
+			regularChange := o.Profile == "regular" && (uint64(seed)*5+uint64(index)*3)%2 == 1
 			if nParams > 1 && (o.Profile != "regular" && chance(pChange) || regularChange) {
 				nch := 1 + pick(3)
 				for k := 0; k < nch; k++ {
